@@ -216,7 +216,7 @@ def mc_parc_part(chk, w, tier):
         f = os.path.join(w, f"parc_insts_{k}.json")
         pool = insts if "w3" not in cfg else [i for i in insts if i["n"] <= 5]        # three workers: smaller instances (the state space grows fast)
         json.dump(pool[:k] + pots[: max(2, k // 6)], open(f, "w"))
-        r = mc("MC_ParC", cfg, workers=8, env={"INSTS": f}, timeout=5400, require_actions=False, coverage=thorough)
+        r = mc("MC_ParC", cfg, workers=8, env={"INSTS": f}, timeout=5400, require_actions=False, coverage=False)      # (coverage statistics cost 10x here)
         chk.add_mc(cfg, r, constants=f"Widths = {{1,2}} Cuts = {{lel, fc}}; {min(k, len(insts))} re-convergent instances (n <= 6) + {len(pots[: max(2, k // 6)])} deferred-rewards instances: complete parallel caching searches, "
                                      "every interleaving of critical sections, diagram layers and cache publications, every tie-break")
 
